@@ -71,7 +71,11 @@ func (r *c13Rec) hook(ev string, o1, o2 any, a, b int) {
 	if len(ev) < 3 || ev[:3] != "wp." {
 		return
 	}
-	unlocked := ev == "wp.send" || ev == "wp.spawn" || ev == "wp.clean.nil" || ev == "wp.stamp" || ev == "wp.recv"
+	// wp.stop.begin / wp.stop.nil are emitted inside Stop's critical section: sleeping there only
+	// stretches the critical section (harmless), and widens the window for anything that is
+	// supposed to be excluded by the lock
+	unlocked := ev == "wp.send" || ev == "wp.spawn" || ev == "wp.clean.nil" || ev == "wp.stamp" || ev == "wp.recv" ||
+		ev == "wp.stop.begin" || ev == "wp.stop.nil"
 	if unlocked && ev != "wp.recv" {
 		r.sleepJitter() // before the event: widens the window between getCh and the send etc.
 	}
